@@ -216,7 +216,7 @@ def run_job(spec):
                 elif status == 'unknown':
                     res['inconclusive'].append('obligation %s: solver unknown' % label)
                 else:
-                    hint = getattr(po, 'refute_hints', {}).get(label)
+                    hint = None if os.environ.get('VERIF_NO_HINTS') else getattr(po, 'refute_hints', {}).get(label)
                     if hint is not None:
                         # the harness knows a clear-cut region for this obligation: look for the refutation there first
                         try:
@@ -229,6 +229,27 @@ def run_job(spec):
                     # a refuting model can fail to reproduce by coincidence (e.g. an integer wrap whose result happens to have
                     # the same magnitude): ask the solver for up to three further, different refutations before giving up
                     tries = 0
+                    if v['kind'] == 'nonrepro' and 'UB-CANDIDATE' not in v['detail']:
+                        # first a refutation on a COARSE GRID (every real variable the obligation talks about a multiple of 1/8, then
+                        # of 1/1024): solver models tend to sit just across the boundary, and a violation of 1e-6 is lost in the
+                        # float tolerance of the replay; on a coarse grid a violated equality is violated by a visible margin
+                        try:
+                            from z3 import z3util
+                            pz = core._b(prop)
+                            pv = [x for x in (z3util.get_vars(pz) if isinstance(pz, z3.ExprRef) else []) if x.sort().kind() == z3.Z3_REAL_SORT]
+                            for den in (8, 1024):
+                                if not pv:
+                                    break
+                                grid = z3.And(*[x * den == z3.ToReal(z3.Int('grid!%d' % i)) for i, x in enumerate(pv)])
+                                st_g, m_g = ctx.prove(core.sor(prop, core.SBool.mk(z3.Not(grid))))
+                                if st_g == 'refuted' and m_g is not None:
+                                    vg = confirm(spec, po, label, m_g)
+                                    if vg['kind'] != 'nonrepro':
+                                        v, model = vg, m_g
+                                        break
+                        except Exception:
+                            if os.environ.get('VERIF_DEBUG'):
+                                traceback.print_exc()
                     while v['kind'] == 'nonrepro' and 'UB-CANDIDATE' not in v['detail'] and tries < 3:
                         tries += 1
                         try:
